@@ -164,7 +164,14 @@ def stepHistory (m : Nat) (st : HSt) (j : Json) : R (HSt × Option Json) := do
         let (pv, pst) := plainRun W st.kept rq
         let completed := match o.value with | .ok (some _) => rq.stages.contains Stage.pathCommit | _ => false
         let kept' := match pv with | .ok _ => (if completed then pst.kept else st.kept) | .error _ => st.kept
+        let graphJ : Json := match analysisPhase m W st.store rq with
+          | .ok (_, _, fis, _) =>
+            let g := graphOf fis
+            let pairs (l : List (String × String)) : Json := .arr (l.map (fun (a, b) => Json.arr #[.str a, .str b])).toArray
+            Json.mkObj [("nodes", .arr (g.nodes.map Json.str).toArray), ("solid", pairs g.solid), ("dashed", pairs g.dashed)]
+          | .error _ => .null
         let out := Json.mkObj [
+          ("graph", graphJ),
           ("value", match o.value with | .ok (some v) => rvalJson v | _ => .null),
           ("error", match o.value with | .error e => xErrJson e | .ok _ => .null),
           ("log", .arr (o.log.map Json.str).toArray),
